@@ -61,6 +61,18 @@ crate::harnesses! {
         let none: Option<&u64> = None;
         assert!(some.copied() == Some(x) && none.copied().is_none(), "Option::copied");
     }
+    // wrapper any_nonzero_above_first (unit shifts): std's Iterator::any on `limbs[1..]`, arrays of 1, 2, 3 and 6 limbs (bounded)
+    #[cfg_attr(kani, kani::unwind(8))] fn core_specs_any_above_first_len6() {
+        fn chk<const N: usize>() {
+            let a: [u64; N] = any();
+            let got = a[1..].iter().any(|&limb| limb != 0);
+            let mut want = false;
+            let mut j = 1;
+            while j < N { if a[j] != 0 { want = true; } j += 1; }
+            assert!(got == want, "any(|&limb| limb != 0) over limbs[1..]");
+        }
+        chk::<1>(); chk::<2>(); chk::<3>(); chk::<6>();
+    }
     // assume_specification [<[T]>::fill] on slices of length 0..=6 (bounded)
     #[cfg_attr(kani, kani::unwind(8))] fn core_specs_slice_fill_len6() {
         let mut a: [u64; 6] = any();
